@@ -640,17 +640,31 @@ def gen_sub(rng, hazard=0.05):
     return s
 
 
-def gen_struct(rng, bad_values=0.08):
-    """a configuration as ConfigDict.add/set would build it: sections distinct under lower_key"""
+NAME_CHARS = b"abcxyzABCXYZ0189-"
+
+
+def gen_name(rng, allow_empty=False) -> bytes:
+    n = rng.choice([0] if allow_empty and rng.random() < 0.3 else [1, 1, 2, 3, 6])
+    return bytes(rng.choice(NAME_CHARS) for _ in range(n))
+
+
+def gen_struct(rng, bad_values=0.08, odd_names=0.15):
+    """a configuration as ConfigDict.add/set would build it: sections distinct under lower_key.
+    odd_names: share of names outside git's grammar but inside dulwich's (leading digit/hyphen, empty key or
+    section name, '.' in a section that has a subsection) -- exercised against the model only, git skips them."""
     struct, seen = [], set()
     for _ in range(rng.randint(0, 5)):
         name, sub = rng.choice(SEC_NAMES), gen_sub(rng)
+        if rng.random() < odd_names:
+            name = gen_name(rng, allow_empty=True)
+            if sub is not None and rng.random() < 0.3:
+                name += b"." + gen_name(rng)
         if (name.lower(), sub) in seen:
             continue
         seen.add((name.lower(), sub))
         ents = []
         for _ in range(rng.choice([0, 1, 2, 3, 3, 5])):
-            k = rng.choice(KEY_NAMES)
+            k = rng.choice(KEY_NAMES) if rng.random() > odd_names else gen_name(rng, allow_empty=True)
             r = rng.random()
             if r < 0.3:
                 v = bytes(rng.choice(ALPHA11) for _ in range(rng.randint(0, 4)))
@@ -1176,6 +1190,111 @@ def _dulwich_reads_git(ctx, git, items):
     _compare_read(ctx, "file.read.git-written", datas)
 
 
+WF_VALUES = [b"v1", b"v2", b" lead", b"trail ", b"a#b", b'q"q', b"back\\slash", b"tab\there", b"multi\nline", b"",
+             b"x y", b"\\", b"#", b" ; ", b"a;b#", b"\\n", b"caf\xc3\xa9", b"\x08", b"a\x0bb"]
+
+
+def gen_interleaved(rng):
+    """[actor, op, name, sub, key, value] steps; an unset is only generated for a key that is set at that point"""
+    secs = [(rng.choice([b"core", b"Core", b"Remote", b"remote"]), rng.choice([None, b"o", b"O", b"a b", b'x"y', b"a.b", b"#1"]))
+            for _ in range(2)]
+    live: set = set()
+    steps = []
+    for _ in range(rng.randint(2, 9)):
+        actor = rng.choice(["git", "dulwich"])
+        op = rng.choice(["set", "set", "add", "add", "unset"])
+        name, sub = rng.choice(secs)
+        k = rng.choice([b"k", b"K", b"url", b"Url"])
+        key = (name.lower(), sub, k.lower())
+        if op == "unset":
+            if key not in live:
+                continue
+            live.discard(key)
+        else:
+            live.add(key)
+        steps.append((actor, op, name, sub, k, rng.choice(WF_VALUES)))
+    return steps
+
+
+def run_interleaved(ctx, git, steps, stream="interleaved") -> bool:
+    """every step is done either by C git or by dulwich on the same file; after every step both readers must agree
+    with the abstract multi-valued-dictionary spec.  Returns True when everything held."""
+    from dulwich.config import ConfigFile
+    path = git.path()
+    path.write_bytes(b"")
+    spec: dict = {}
+    log = []
+    for actor, op, name, sub, k, v in steps:
+        key = (name.lower(), sub, k.lower())
+        gkey = name + (b"" if sub is None else b"." + sub) + b"." + k
+        log.append([actor, op, hx(name), opt(sub), hx(k), hx(v)])
+        case = {"kind": "interleaved", "log": list(log)}
+        try:
+            if actor == "git":
+                flag = {"set": b"--replace-all", "add": b"--add", "unset": b"--unset-all"}[op]
+                args = [b"git", b"config", b"--file", os.fsencode(str(path)), flag, gkey] + ([] if op == "unset" else [v])
+                git.calls += 1
+                p = subprocess.run(args, capture_output=True, env=git.env)
+                if p.returncode != 0:
+                    # git refusing the file dulwich wrote is an interop failure of the property
+                    ctx.oracle_fail(stream, dict(case, file=hx(path.read_bytes())),
+                                    f"git config {flag.decode()} failed on the shared file: "
+                                    f"{p.stderr.decode(errors='replace').strip()[:200]}", None)
+                    return False
+            else:
+                cf = ConfigFile.from_path(str(path))
+                sec = (name,) if sub is None else (name, sub)
+                if op == "set":
+                    cf.set(sec, k, v)
+                elif op == "add":
+                    cf.add(sec, k, v)
+                else:
+                    cf.remove(sec, k)
+                cf.write_to_path(str(path))
+        except Exception as e:
+            ctx.oracle_fail(stream, case, f"dulwich {op} on the shared file raised {type(e).__name__}: {e}", None)
+            return False
+        if op == "set":
+            spec[key] = [v]
+        elif op == "add":
+            spec.setdefault(key, []).append(v)
+        else:
+            spec.pop(key, None)
+        case = dict(case, file=hx(path.read_bytes()))
+        try:
+            got_d: dict = {}
+            for (nm, sb), ents in public_struct(ConfigFile.from_path(str(path))):
+                for kk, vv in ents:
+                    got_d.setdefault((nm.lower(), sb, kk.lower()), []).append(vv)
+        except Exception as e:
+            ctx.oracle_fail(stream, case, f"dulwich cannot read the shared file after step {len(log)}: {type(e).__name__}: {e}", None)
+            return False
+        gl = git.list(path)
+        if isinstance(gl, tuple):
+            ctx.oracle_fail(stream, case, f"git cannot read the shared file after step {len(log)}: {gl[1]}", None)
+            return False
+        got_g: dict = {}
+        for kk, vv in gl:
+            got_g.setdefault(kk, []).append(vv)
+        want_g = {git_key(nm, sb, kk): vs for (nm, sb, kk), vs in spec.items()}
+        ctx.count(stream, tuple(map(tuple, log)), True, f"{actor}:{op}")
+        if got_d != spec:
+            ctx.oracle_fail(stream, case, f"after step {len(log)} dulwich reads {got_d!r}, spec says {spec!r}"[:700], None)
+            return False
+        if got_g != want_g:
+            ctx.oracle_fail(stream, case, f"after step {len(log)} git reads {got_g!r}, spec says {want_g!r}"[:700], None)
+            return False
+    return True
+
+
+def _stream_interleaved(ctx, git, n):
+    """set / add / unset / rewrite sequences shared between C git and dulwich.  Only values outside the known
+    failing classes are used, so any failure here is unclassified."""
+    assert all(value_class(v) is None for v in WF_VALUES)
+    for _ in range(n):
+        run_interleaved(ctx, git, gen_interleaved(ctx.rng))
+
+
 def gen_git_item(rng, values):
     name = rng.choice([b"core", b"Remote", b"x-1"])
     sub = gen_sub(rng, hazard=0.03)
@@ -1224,7 +1343,34 @@ def parse_cfg_tokens(s: str):
 
 # ------------------------------------------------------------------------------------------------
 
-BASELINE_FP = {}
+#: AST fingerprints of the modelled functions at the pinned commit.  A change never decides anything by itself,
+#: it only multiplies the case budget (DESIGN 2.3 "adaptive depth").
+BASELINE_FP = {
+    "_format_string": "7e724d0e966874ec",
+    "_escape_value": "65383919914241ba",
+    "_parse_string": "1e4fbf2a65be146a",
+    "_escape_subsection": "b27e05583af733e1",
+    "_unescape_subsection": "591dc33c8e10c194",
+    "_check_variable_name": "58458acd9181d2c3",
+    "_check_section_name": "127f55976df1fe75",
+    "_strip_comments": "a424e6e104a46189",
+    "_is_line_continuation": "124d30a05cfe7273",
+    "_parse_section_header_line": "fc125d1ba8204a61",
+    "ConfigFile.from_file": "4003ccc89c4dad15",
+    "ConfigFile.write_to_file": "7a7d9bc9bc5878b6",
+    "lower_key": "60f343b12b431742",
+    "CaseInsensitiveOrderedMultiDict.__setitem__": "3911a55733360759",
+    "CaseInsensitiveOrderedMultiDict.set": "79372d9037d3eb81",
+    "CaseInsensitiveOrderedMultiDict.__delitem__": "23f7b272f480a768",
+    "CaseInsensitiveOrderedMultiDict.__getitem__": "bab951e38dca9f4c",
+    "CaseInsensitiveOrderedMultiDict.get_all": "c2ccdf58aafde4d0",
+    "CaseInsensitiveOrderedMultiDict.setdefault": "c65597d757fbd3d6",
+    "ConfigDict.set": "556cf6069b42d25c",
+    "ConfigDict.add": "edd6438b79997027",
+    "ConfigDict.remove": "fe0f57cfe2ada240",
+    "ConfigDict.get": "63bf4f7e5dc8a1ad",
+    "ConfigDict.get_multivar": "e9ecf4df0a5eedf6"
+}
 
 
 def run(ctx: core.Ctx):
@@ -1248,42 +1394,43 @@ def run(ctx: core.Ctx):
 
     # 1. values: exhaustive over the property's alphabet, then the extended alphabet, then random longer ones
     L11 = 5 if (ctx.thorough or boost > 1) else 4
-    L15 = 4 if (ctx.thorough or boost > 1) else 3
+    L15 = 5 if ctx.thorough else 4
     vals11 = list(exhaustive(ALPHA11, L11))
     _stream_values(ctx, "value.exhaustive11", vals11)
     _stream_values(ctx, "value.exhaustive15", [v for v in exhaustive(ALPHA15, L15) if any(c not in ALPHA11 for c in v)])
-    _stream_values(ctx, "value.random", [gen_value(rng) for _ in range(ctx.budget(3000) * boost)])
+    _stream_values(ctx, "value.random", [gen_value(rng) for _ in range(ctx.budget(10000, mult=5) * boost)])
     ctx.extra_cov["exhaustive_value_len"] = {"alphabet11": L11, "alphabet15": L15}
 
     # 2. the reader on strings the writer never produces
     _stream_parse(ctx, "parse.exhaustive", exhaustive(PARSE_ALPHA, 5 if ctx.thorough else 4))
     _stream_parse(ctx, "parse.random", [b" " + gen_value(rng) + rng.choice([b"\n", b"\r\n", b"", b" \n"])
-                                        for _ in range(ctx.budget(2000) * boost)])
+                                        for _ in range(ctx.budget(6000, mult=5) * boost)])
 
     # 3. subsections, headers, continuation test
     _stream_subsections(ctx, "subsection.exhaustive", exhaustive(SUB_ALPHA, 5 if ctx.thorough else 4))
     _stream_subsections(ctx, "subsection.random",
                         [bytes(rng.choice(SUB_ALPHA + [TAB, LF, 0, CR, 0x80, ord("="), 0x0B]) for _ in range(rng.randint(5, 12)))
-                         for _ in range(ctx.budget(1000) * boost)])
-    _stream_headers(ctx, ctx.budget(3000) * boost)
+                         for _ in range(ctx.budget(3000, mult=5) * boost)])
+    _stream_headers(ctx, ctx.budget(8000, mult=5) * boost)
     _stream_cont(ctx, 6 if ctx.thorough else 5)
 
     # 4. whole files, hand-written features, operation sequences
-    structs, datas = _stream_files(ctx, ctx.budget(500) * boost)
-    _stream_mutated(ctx, datas, ctx.budget(1500) * boost)
-    _stream_ops(ctx, ctx.budget(500) * boost)
+    structs, datas = _stream_files(ctx, ctx.budget(1500, mult=5) * boost)
+    _stream_mutated(ctx, datas, ctx.budget(5000, mult=5) * boost)
+    _stream_ops(ctx, ctx.budget(2000, mult=5) * boost)
 
     # 5. C git, both directions (sampled in quick)
     git = Git(ctx)
     if ctx.thorough:
         gvals = [v for v in exhaustive(ALPHA11, 4) if b"\0" not in v]
     else:
-        gvals = rng.sample([v for v in vals11 if len(v) >= 1], 300)
-    gvals += [gen_value(rng).replace(b"\0", b"0") for _ in range(ctx.budget(60))]
+        gvals = rng.sample([v for v in vals11 if len(v) >= 1], 500)
+    gvals += [gen_value(rng).replace(b"\0", b"0") for _ in range(ctx.budget(100))]
     _git_reads_dulwich_values(ctx, git, gvals)
-    _git_reads_dulwich_files(ctx, git, structs, ctx.budget(100))
+    _git_reads_dulwich_files(ctx, git, structs, ctx.budget(200, mult=5))
     pool = [v for v in exhaustive(ALPHA15, 3) if len(v) >= 1]
-    _dulwich_reads_git(ctx, git, [gen_git_item(rng, pool) for _ in range(ctx.budget(240, mult=8))])
+    _dulwich_reads_git(ctx, git, [gen_git_item(rng, pool) for _ in range(ctx.budget(480, mult=8))])
+    _stream_interleaved(ctx, git, ctx.budget(80, mult=5))
     ctx.extra_cov["git_invocations"] = git.calls
 
 
@@ -1362,8 +1509,10 @@ def replay(ctx: core.Ctx, data: dict) -> int:
     elif kind == "dulwich-reads":
         items = [(unhx(a), None if b == "~" else unhx(b), unhx(cc), unhx(d)) for a, b, cc, d in c["items"]]
         _dulwich_reads_git(ctx, Git(ctx), items)
+    elif kind == "interleaved":
+        steps = [(a, o, unhx(n), None if sb == "~" else unhx(sb), unhx(k), unhx(v)) for a, o, n, sb, k, v in c["log"]]
+        run_interleaved(ctx, Git(ctx), steps, "replay")
     elif kind == "ops":
-        print("ops replay: run `c20.ops` tokens through run_ops_real")
         ops = []
         for t in c["ops"].split():
             p = t.split(":")
